@@ -352,7 +352,7 @@ theorem lib_entries_roundtrip : ∀ (kvs : List (List Nat × Obj)) (rest : List 
         = .ok (readBack v, serEntries kvs ++ 10 :: 62 :: 62 :: rest) :=
       parseObj_of_first f' _ t r1 _ (by rw [lib_next_ws 32 _ (by decide)]; exact hn) hp
     have e : serEntries ((k, v) :: kvs) ++ 10 :: 62 :: 62 :: rest
-        = 10 :: (47 :: k ++ 32 :: (serRaw v ++ (serEntries kvs ++ 10 :: 62 :: 62 :: rest))) := by
+        = 10 :: (47 :: escapeName k ++ 32 :: (serRaw v ++ (serEntries kvs ++ 10 :: 62 :: 62 :: rest))) := by
       simp [serEntries]
     rw [e, ObjParser.parseDictInner, lib_next_ws 10 _ (by decide), hname]
     simp [hv, ihl, readBackKVs]
